@@ -23,6 +23,8 @@ var (
 	fReruns   = flag.Int("reruns", 2000, "minimisation budget")
 	fParams   = flag.String("params", "", "k=v,k=v harness parameters")
 	fTrace    = flag.Bool("trace", false, "print the trace of a replay")
+	fIsolate  = flag.Bool("isolate", false, "batch mode: run every simulated run in its own child process (fallback when process-global state leaks between runs)")
+	fSingle   = flag.Bool("single", false, "run exactly one run (index -from) and write its RunResult to -out")
 	fDump     = flag.Bool("dumplog", false, "batch mode: print one line per run (seed, fingerprint, steps) for determinism tests")
 )
 
@@ -51,7 +53,7 @@ func TestWorker(t *testing.T) {
 				fmt.Println(l)
 			}
 		}
-		out := map[string]any{"reproduced": ok, "class": rf.Class, "key": rf.Key, "violations": r.Violations, "fingerprint": r.Fingerprint, "steps": r.Steps, "infra": r.Infra}
+		out := map[string]any{"reproduced": ok, "class": rf.Class, "key": rf.Key, "violations": r.Violations, "fingerprint": r.Fingerprint, "steps": r.Steps, "infra": r.Infra, "tape": r.Tape}
 		b, _ := json.Marshal(out)
 		fmt.Println("REPLAY-RESULT " + string(b))
 		if *fOut != "" {
@@ -63,6 +65,7 @@ func TestWorker(t *testing.T) {
 			fmt.Println("INFRA cannot load replay:", err)
 			os.Exit(2)
 		}
+		IsolateReplays = *fIsolate
 		m := Minimise(t, rf, *fReruns)
 		if err := WriteJSON(*fOut, m); err != nil {
 			fmt.Println("INFRA", err)
@@ -80,7 +83,24 @@ func TestWorker(t *testing.T) {
 				fmt.Printf("  V %s | %s\n", v.Class, v.Key)
 			}
 		}
+	case *fSingle:
+		seed := *fBase<<32 + uint64(*fFrom)
+		r := RunOne(t, *fHarness, *fProp, params(), newTape(seed), false)
+		r.SitesByName = map[string]int{}
+		for k, v := range r.Sites {
+			r.SitesByName[siteName(k)] += v
+		}
+		for k := range r.Switches {
+			r.SwitchList = append(r.SwitchList, [2]int{k[0], k[1]})
+		}
+		if err := WriteJSON(*fOut, r); err != nil {
+			fmt.Println("INFRA", err)
+			os.Exit(2)
+		}
 	default:
+		if *fIsolate {
+			isolateArgs = []string{"-harness", *fHarness, "-prop", *fProp, "-base", fmt.Sprint(*fBase), "-params", *fParams}
+		}
 		br := RunBatch(t, *fHarness, *fProp, params(), *fBase, *fFrom, *fTo, time.Duration(*fBudget*float64(time.Second)))
 		if *fOut != "" {
 			if err := WriteJSON(*fOut, br); err != nil {
